@@ -111,6 +111,10 @@ pub fn local_to_absolute_addr(
     index: u16,
     num_proc_locals: u16,
 ) -> Result<(), AssemblyError> {
+    // a procedure without locals (or the program body) has no valid local index at all
+    if num_proc_locals == 0 {
+        return Err(AssemblyError::param_out_of_bounds(index as u64, 0, 0));
+    }
     let max = num_proc_locals - 1;
     validate_param(index, 0..=max)?;
 
